@@ -303,6 +303,33 @@ func hFrameOps() []HOp {
 				kept := *phy
 				return &hDecoded{&kept, errS(err)}
 			}},
+			HOp{"decode-payload-into-reused-receiver(" + f.name + ")", func(ctx HCtx) interface{} {
+				// the MACPayload decoder called directly on one kept object (round 16, C08-r16):
+				// what it decodes re-encodes to the bytes it was given, whatever it held before
+				mt := wire[0] >> 5
+				if len(wire) < 12 || mt < 2 || mt > 5 {
+					return []interface{}{"not-a-data-frame"}
+				}
+				mp, _ := ctx["macpayload"].(*lorawan.MACPayload)
+				if mp == nil {
+					mp = &lorawan.MACPayload{}
+					ctx["macpayload"] = mp
+				}
+				body := append([]byte(nil), wire[1:len(wire)-4]...)
+				uplink := mt == 2 || mt == 4
+				err := mp.UnmarshalBinary(uplink, append([]byte(nil), body...))
+				if err != nil {
+					return []interface{}{"refused", errS(err)}
+				}
+				out, err := mp.MarshalBinary()
+				problem := ""
+				if err != nil {
+					problem = "a decoded MACPayload is refused by the encoder: " + err.Error()
+				} else if !bytes.Equal(out, body) {
+					problem = fmt.Sprintf("MACPayload %x decoded into a kept object re-encodes to %x", body, out)
+				}
+				return &hChecked{[]interface{}{out, errS(err)}, problem}
+			}},
 			HOp{"decode-then-strip-fopts-and-payload(" + f.name + ")", func(HCtx) interface{} {
 				// a received header re-used for an answer: the decoded FCtrl / FHDR values
 				// are copied into a frame without FOpts and without payload
